@@ -363,6 +363,44 @@ def _(eng, ci, a):
     return Ref([_language_en(eng)], 0)
 
 
+def _shared_string_index(eng, strings):
+    """Model::shared_strings: text -> index into workbook.shared_strings (as from_workbook builds it)"""
+    from .mmap import map_insert
+    m = MapV()
+    for i, sv in enumerate(strings.f):
+        map_insert(eng, m, copy_value(sv), i)
+    return m
+
+
+def _locale_for(eng, wb, wdef):
+    """the model's locale, from workbook.settings.locale: `en` or `de` (hand-built by st::locale_with)"""
+    from .mcore import mkstrslice, str_bytes, concrete_bytes
+    settings = wb.f[wdef.index['settings']]
+    sd = eng.td.lookup('types::WorkbookSettings')
+    loc = concrete_bytes(str_bytes(settings.f[sd.index['locale']]))
+    if loc not in (b'en', b'de'):
+        raise Unsupported('model_from_workbook: locale %r' % (loc,))
+    dec, grp = ('.', ',') if loc == b'en' else (',', '.')
+    for mf in eng.mfs:
+        for fn in mf.by_last.get('locale_with', ()):
+            if fn.kind == 'fn' and len(fn.params) == 2:
+                eng.assumptions.add('Model.locale = the hand-built Locale of st::locale_with (decimal %s group %s)' % (dec, grp))
+                return eng.run_fn(fn, [mkstrslice(dec), mkstrslice(grp)])
+    return Opaque('locale')
+
+
+def _locale_en(eng):
+    """the model's locale: the hand-built `en` Locale of the harness (st::locale_with(".", ",")) when the harness
+    module is in the MIR, otherwise opaque"""
+    from .mcore import mkstrslice
+    for mf in eng.mfs:
+        for fn in mf.by_last.get('locale_with', ()):
+            if fn.kind == 'fn' and len(fn.params) == 2:
+                eng.assumptions.add('Model.locale = the hand-built en Locale of st::locale_with (separators . and ,)')
+                return eng.run_fn(fn, [mkstrslice('.'), mkstrslice(',')])
+    return Opaque('locale')
+
+
 @rt('model_from_workbook')
 def _(eng, ci, a):
     """`Model::from_workbook(wb, "en")` for a workbook without formulas / defined names / tables (DESIGN 3.3):
@@ -385,10 +423,10 @@ def _(eng, ci, a):
         'workbook': wb,
         'parsed_formulas': VecV([VecV([]) for _ in g('worksheets').f]),
         'parsed_defined_names': MapV(),
-        'shared_strings': MapV(),
+        'shared_strings': _shared_string_index(eng, g('shared_strings')),
         'parser': Opaque('parser'),
         'cells': MapV(),
-        'locale': Ref([Opaque('locale')], 0),
+        'locale': Ref([_locale_for(eng, wb, wdef)], 0),
         'language': Ref([_language_en(eng)], 0),
         'tz': Opaque('tz'),
         'view_id': 0,
